@@ -85,6 +85,12 @@ def is_table_path(ctx: Ctx, t: Optional[T], state_params: Set[str]) -> Optional[
         if cur.op == "sub":
             cur = cur.a[0]
             continue
+        if cur.op == "call" and cur.a[0].op == "attr" and cur.a[0].a[1] in ("get", "setdefault"):
+            cur = cur.a[0].a[0]          # the inner table obtained with .get / .setdefault
+            continue
+        if cur.op == "mut":
+            cur = cur.a[0]
+            continue
         if cur.op == "ite":
             return is_table_path(ctx, cur.a[1], state_params) or is_table_path(ctx, cur.a[2], state_params)
         return None
@@ -109,6 +115,10 @@ SAFE_ATTRS_OF_RECORD = {"values", "data", "tid", "timestamp", "eventid", "debugi
 
 def classify_pop(ctx: Ctx, p: POp, state_params: Set[str]):
     """Return (class, description) for a tracked partial operation, or None when it is not tracked."""
+    if p.kind == "emptypop":
+        if is_table_path(ctx, p.path, state_params) or is_table_path(ctx, p.base, state_params):
+            return ("index", "list kept in a context table (may be empty)")
+        return None
     if p.kind == "sub":
         base, key = p.base, p.key
         pth = p.path
@@ -164,6 +174,9 @@ def removal_pops(rec: sym.Record) -> List[POp]:
             out.append(POp("sub", e.base, e.args[0], e.pc, e.loops, e.trys, e.seq, e.func, e.lineno, e.col, e.path))
         elif e.kind == "del-sub":
             out.append(POp("sub", e.base, e.key, e.pc, e.loops, e.trys, e.seq, e.func, e.lineno, e.col, e.path))
+        elif e.kind == "mut-call" and e.key == "pop" and len(e.args) == 0:
+            # list.pop() on a list kept in a context table: IndexError when it is empty
+            out.append(POp("emptypop", e.base, const(-1), e.pc, e.loops, e.trys, e.seq, e.func, e.lineno, e.col, e.path))
     return out
 
 
@@ -180,7 +193,7 @@ def analyse_record(ctx: Ctx, run: Run, rec: sym.Record, module: str, root: str, 
         scope = fn.split(".", 1)[1] if fn.count(".") >= 1 and fn.split(".")[0] in ("traces_parser", "callstacks_parser") else fn
         scope = p.func.rsplit(".", 1)[-1] if not p.func.endswith("__str__") else ".".join(p.func.rsplit(".", 2)[-2:])
         expr = f"{sym.pretty(p.path if p.path is not None else p.base)[:70]}" + \
-               (f"[{sym.pretty(p.key)[:40]}]" if p.kind == "sub" else f".{p.key}")
+               (f"[{sym.pretty(p.key)[:40]}]" if p.kind == "sub" else (".pop()" if p.kind == "emptypop" else f".{p.key}"))
         construct = f"{cls}: {expr}"
         key = (module_of(p.func), scope, construct)
         prev = seen.get(key)
